@@ -17,10 +17,13 @@ LM2 == << DT(41, 1), D(42, <<421>>), DT(43, 2), DT(44, 1) >>
 
 Mk(conn, ledger, tab, star, targets, where, lo, hi, lit, wp, pp) ==
     [conn |-> conn, ledger |-> ledger, tab |-> tab, star |-> star, targets |-> targets, where |-> where,
-     lo |-> lo, hi |-> hi, lit |-> lit, wpause |-> wp, ppause |-> pp, ty |-> 0, parse |-> 0]
+     lo |-> lo, hi |-> hi, lit |-> lit, wpause |-> wp, ppause |-> pp, ty |-> 0, parse |-> 0, sub |-> <<>>]
 Ty(j, ty) == [j EXCEPT !.ty = ty]                  \* tab "x": the directive type of the typed table
 Text(j, n) == [j EXCEPT !.parse = n]               \* submitted as text, n places inside the parser where it can be descheduled
+Sub(j, s) == [j EXCEPT !.sub = s]                  \* FROM (SELECT col s[1] AS n<s[1]>, ... FROM tab)
 col(i) == At("col", i)
+aFlo == At("flo", 0)
+aFhi == At("fhi", 0)
 aRp == At("rp", 0)
 aCp == At("cp", 0)
 aLo == At("lo", 0)
@@ -61,8 +64,25 @@ JobsParser ==
       Text(Mk(2, LB2, "e", FALSE, <<col(2)>>, <<>>, 0, 0, TRUE, FALSE, FALSE), 1) }
 JobsScan ==
     { Ty(Mk(4, LM2, "x", FALSE, <<col(2), aRp>>, <<>>, 0, 0, TRUE, FALSE, FALSE), 1) }
+(* function calls (the operands evaluated one by one, the thread descheduled between them) and FROM-subqueries (the
+   same names at different positions), 2 threads, every interleaving *)
+JobsExpr ==
+    { Mk(1, LA2, "p", FALSE, <<Fn("add", 2, 1)>>, <<>>, 0, 0, TRUE, FALSE, FALSE),                      \* add(col 2, col 1)
+      Mk(2, LB2, "p", FALSE, <<col(3), Fn("add", 2, 3)>>, <<aFhi>>, 0, 221, FALSE, FALSE, FALSE),       \* other ledger; cmp(<hi>, key) in WHERE
+      Mk(1, LA2, "e", FALSE, <<Fn("first", 2, 3)>>, <<aFlo>>, 12, 0, FALSE, FALSE, TRUE),               \* same connection, other table
+      Sub(Mk(1, LA2, "p", FALSE, <<aCp, col(2), col(1)>>, <<>>, 0, 0, TRUE, FALSE, FALSE), <<1, 2>>),   \* FROM (SELECT c1 AS n1, c2 AS n2 ..)
+      Sub(Mk(1, LA2, "p", FALSE, <<aCp, col(2)>>, <<aHi>>, 0, 112, FALSE, FALSE, TRUE), <<2, 3, 1>>),   \* n2 first, n1 last
+      Sub(Mk(2, LB2, "p", TRUE, <<>>, <<aCp, aLo>>, 211, 0, TRUE, FALSE, FALSE), <<3, 2, 1>>),          \* SELECT * FROM (subquery)
+      Sub(Mk(3, LA2, "p", FALSE, <<aCp, Fn("add", 2, 3), aRp>>, <<>>, 0, 0, TRUE, FALSE, FALSE), <<3, 2>>) }  \* a call over the names
+JobsOperands ==
+    { Mk(1, LA2, "p", FALSE, <<Fn("add", 2, 1)>>, <<>>, 0, 0, TRUE, FALSE, FALSE),
+      Mk(2, LB2, "p", FALSE, <<Fn("add", 2, 1)>>, <<>>, 0, 0, TRUE, FALSE, FALSE) }
+JobsSubcols ==
+    { Sub(Mk(1, LA2, "p", FALSE, <<aCp, col(2)>>, <<>>, 0, 0, TRUE, FALSE, FALSE), <<1, 2>>),
+      Sub(Mk(2, LB2, "p", FALSE, <<aCp, col(2)>>, <<>>, 0, 0, TRUE, FALSE, FALSE), <<2, 1>>) }
 Jobs(name) ==
     CASE name = "3rows" -> Jobs3 [] name = "2rows" -> Jobs2
+      [] name = "expr" -> JobsExpr [] name = "operands" -> JobsOperands [] name = "subcols" -> JobsSubcols
       [] name = "compiler" -> JobsCompiler [] name = "memo" -> JobsMemo
       [] name = "parser" -> JobsParser [] name = "scan" -> JobsScan
 
